@@ -176,7 +176,9 @@ pub fn run<E: Entry, S: IdxC<Idx<E>>>(ctx: &mut Ctx) {
         match choice {
             0..=9 => {
                 // in long histories follow the pool in order so that structured runs survive
-                let v = if long {
+                // follow the pool in order (long histories always, short ones every other
+                // history) so that structured runs - strides, saturation tails, breaks - survive
+                let v = if long || h % 2 == 0 {
                     cursor += 1;
                     pool[(cursor - 1) % pool.len()].clone()
                 } else {
